@@ -68,7 +68,7 @@ class C20(Sim):
             "non-trivial = at least one union that merged two blocks or one pop of a non-empty queue")
     FAULT_KINDS = ["reject"]
     PROBES = ["self_union", "union_absent", "repeat_add", "tie_pop", "inf_priority", "mixed_elements", "tuple_elements",
-              "component_query", "mapping_query", "merge", "constructor_duplicates", "same_item_pushed_again"]
+              "component_query", "mapping_query", "merge", "constructor_duplicates", "same_item_pushed_again", "deep_tree_bulk_query"]
     QUICK_RUNS = 12000
     THOROUGH_RUNS = 2000000
     BLOCK = 200
@@ -104,9 +104,13 @@ class C20(Sim):
             clients += ["producer", "consumer"]
         if rng.chance(0.3):
             clients.append("reader")
-        return {"kind": kind, "elts": elts, "clients": clients, "max_steps": rng.randint(8, 60),
-                "init": rng.below(min(4, len(elts)) + 1), "init_dups": [rng.below(4) for _ in range(rng.below(3))] if rng.chance(0.3) else [],
-                "inv_every": rng.choice([1, 1, 3, 0]),
+        deep = rng.chance(0.2)
+        if deep:
+            # union-heavy runs without intermediate finds: the internal trees get deep before the first bulk query looks at them
+            clients = ["grower", "grower", "grower", "bulk"] + (["producer", "consumer"] if rng.chance(0.3) else [])
+        return {"kind": kind, "elts": elts, "clients": clients, "deep": deep, "max_steps": rng.randint(8, 60) if not deep else rng.randint(20, 70),
+                "init": rng.below(min(4, len(elts)) + 1) if not deep else 0, "init_dups": [rng.below(4) for _ in range(rng.below(3))] if rng.chance(0.3) else [],
+                "inv_every": rng.choice([1, 1, 3, 0]) if not deep else 0,
                 "burst": rng.choice([0.2, 0.5, 0.8]),
                 "prio_pool": rng.choice(["small", "float", "wide"]),
                 "reject_rate": rng.choice([0.1, 0.25])}
@@ -157,7 +161,8 @@ class C20(Sim):
 
     def propose(self, rng):
         cfg = self.cfg
-        names = list(dict.fromkeys(cfg["clients"] + (["rejector"] if cfg["faults_on"] else [])))
+        self._step_count = getattr(self, "_step_count", 0) + 1
+        names = list(dict.fromkeys(cfg["clients"] + (["rejector"] if (cfg["faults_on"] and not cfg.get("deep")) else [])))
         weights = [cfg["clients"].count(n) or cfg["reject_rate"] * 4 for n in names]
         c = self.pick_client(rng, names, weights, cfg["burst"])
         r = self.client_rng(c)
@@ -185,6 +190,11 @@ class C20(Sim):
                 return {"c": c, "op": "getitem", "i": r.below(len(present))}
             return {"c": c, "op": "len" if op == "len" else "counts"}
         if c == "bulk":
+            if self.cfg.get("deep"):
+                if self._step_count < self.cfg["max_steps"] * 0.6:
+                    return {"c": "grower", "op": "union", "x": E(r.choice(self.elts)), "y": E(r.choice(self.elts))}
+                self.probes["deep_tree_bulk_query"] += 1
+                return {"c": c, "op": "component_mapping"} if r.chance(0.7) or not present else {"c": c, "op": "component", "x": E(r.choice(present))}
             op = r.wchoice(["component", "components", "component_mapping", "roots"], [4, 3, 3, 2])
             if op == "component":
                 if not present:
